@@ -273,6 +273,34 @@ func (f *Fn) litOfCallee(call *ast.CallExpr) *ast.FuncLit {
 	return nil
 }
 
+// returnsFailure: the last result of return statement r is of type error and certainly not
+// nil: an error constructed on the spot, a sentinel, or a variable the path facts know to hold
+// the failure of the call it was bound to.
+func (h *Fn) returnsFailure(r *ast.ReturnStmt) bool {
+	if len(r.Results) == 0 {
+		return false
+	}
+	last := ast.Unparen(r.Results[len(r.Results)-1])
+	if t := typeOf(h.Info, last); t == nil || !isErrorType(t) {
+		return false
+	}
+	if isNilIdent(h.Info, last) {
+		return false
+	}
+	if call, ok := last.(*ast.CallExpr); ok {
+		k := h.CallKey(call)
+		return k == "fmt.Errorf" || k == "errors.New" || strings.HasPrefix(k, "github.com/twitchtv/twirp.") || strings.HasPrefix(k, "spec/rpc.Wrap")
+	}
+	if v := h.varOf(last); v != nil {
+		fs := h.localFactsAt(r)
+		if b, ok := fs.bind[v]; ok {
+			return fs.Has(func(fa *Fact) bool { return fa.Kind == FCallFail && fa.Call == b.call && fa.Idx == b.idx })
+		}
+		return false
+	}
+	return strings.HasPrefix(h.Prov(last), "global:")
+}
+
 // provLitCall: the provenance of result #idx of a call of a known literal is the join over
 // the literal's return statements, with the literal's parameters replaced by the arguments.
 func (f *Fn) provLitCall(call *ast.CallExpr, lit *ast.FuncLit, idx, depth int, busy map[*types.Var]bool) (string, bool) {
@@ -286,13 +314,23 @@ func (f *Fn) provLitCall(call *ast.CallExpr, lit *ast.FuncLit, idx, depth int, b
 		return "", false
 	}
 	set := map[string]bool{}
+	used := 0
 	for _, r := range rets {
 		if idx >= len(r.Results) {
 			return "", false // bare return of named results
 		}
+		// the value that accompanies a failure is not the value of the call as far as its
+		// users are concerned (they test the error first; the rules check that they do)
+		if idx != len(r.Results)-1 && h.returnsFailure(r) {
+			continue
+		}
+		used++
 		for _, alt := range splitAlts(h.prov(r.Results[idx], depth+1, busy)) {
 			set[alt] = true
 		}
+	}
+	if used == 0 {
+		return "", false
 	}
 	// parameters -> arguments
 	np := 0
